@@ -263,7 +263,7 @@ def guards(ctx, f_init, f_solve):
     from ..dataflow import canon_bound_text
     txts = [canon_bound_text(fd.node, gs[-1][0].test) for n, gs in raise_guards(fd) if gs]
     need = ["each(self.terminals).name is None or each(self.terminals).name in L0", "not each([self.film] + self.holes).is_valid",
-            "len(self.holes) != len(set((each(self.holes).name for each(self.holes) in self.holes)))",
+            "len(self.holes) != len({each(self.holes).name for each(self.holes) in self.holes})",
             "not self.contains_points(probe_points).all()"]
     missing = [w for w in need if w not in txts]
     ctx.ob("R19.3", "device definition checks: unique terminal/hole names, valid polygons, probe points inside the film", not missing,
